@@ -52,15 +52,81 @@ def install(eng):
     f_out = z3.Function("call_stdout", z3.StringSort(), LS.sort(), z3.IntSort(), z3.StringSort())
     eng.ghost("call_out", T.STR)
     CALL = ["ghost:call_exe", "ghost:call_args", "ghost:call_input", "ghost:call_count", "ghost:call_out"]
+    # ---- the body of utils.call is verified against this contract (it used to be trusted). Library model:
+    # shutil.which(name) is None or the path of an executable NAMED name (ExeName(path) == name);
+    # subprocess.Popen(argv, stdin/stdout/stderr=PIPE, text mode) starts argv[0] with argv[1:]; communicate(input)
+    # feeds input and returns (stdout, stderr) once the command ended with status `returncode`.
+    import shutil
+    import subprocess
+    eng.ghost("call_status", T.INT)
+    eng.ghost("call_err", T.STR)
+    CALL = CALL + ["ghost:call_status", "ghost:call_err"]
+    COUNTED = "call_count == store(old(call_count), executable_name, old(call_count)[executable_name] + 1)"
     eng.contract("gwf.backends.utils:call", params={"executable_name": T.STR, "args": LS, "input": T.Opt(T.STR)},
-                 returns=T.STR, trusted=True, modifies=CALL,
-                 ensures=["call_exe == executable_name", "call_args == args", "call_input == input",
-                          "call_count == store(old(call_count), executable_name, old(call_count)[executable_name] + 1)"],
+                 returns=T.STR, modifies=CALL,
+                 ensures=["call_exe == executable_name", "call_args == args", "call_input == input", COUNTED,
+                          # the command ran to the end, exited with status 0 and wrote no 'error:' to stderr
+                          "call_status == 0", "'error:' not in call_err"],
                  raises={"BackendError": {"cond": "True", "ensures": [
-                     "call_count == store(old(call_count), executable_name, old(call_count)[executable_name] + 1)"]}},
-                 defaults={"input": V(T.Opt(T.STR), T.Opt(T.STR).none())},
-                 note="runs the executable with exactly these arguments and this stdin; raises BackendError on a "
-                      "non-zero exit status or 'error:' on stderr (its own 15 lines are not under contract)")
+                     # either the executable was not found (nothing ran) or it ran once and failed
+                     "call_count == old(call_count) or (" + COUNTED + " and (call_status != 0 or 'error:' in call_err))"]}},
+                 defaults={"input": V(T.Opt(T.STR), T.Opt(T.STR).none())}, serves=["C07", "C08", "C09", "C17"],
+                 note="body verified over a model of shutil.which / subprocess.Popen / communicate (uninterpreted "
+                      "outputs): exactly these arguments and this stdin; BackendError iff non-zero exit status or "
+                      "'error:' on stderr")
+    f_exename = z3.Function("exe_name", z3.StringSort(), z3.StringSort())
+    ProcT = T.ObjT("CmdProc")
+    eng.cls("CmdProc", consts={"argv0": T.STR, "pargs": LS, "returncode": T.INT})
+    f_argv0 = eng.const_fn("CmdProc", "argv0", T.STR)
+    f_pargs = eng.const_fn("CmdProc", "pargs", LS)
+    f_rc = eng.const_fn("CmdProc", "returncode", T.INT)
+
+    def r_which(e, args, kw, st, sink, n):
+        nm = e.coerce(args[0], T.STR, n)
+        ot = T.Opt(T.STR)
+        r, st = e.fresh(ot, "exe", st)
+        yield st.assume(z3.Implies(z3.Not(ot.is_none(r.z)), f_exename(ot.get(r.z)) == nm.z)), r
+
+    eng.rules[shutil.which] = r_which
+
+    def r_popen(e, args, kw, st, sink, n):
+        def const(v):
+            if v.ty is T.PY:
+                return v.z
+            if z3.is_int_value(v.z):
+                return v.z.as_long()
+            if z3.is_true(v.z) or z3.is_false(v.z):
+                return z3.is_true(v.z)
+            return None
+
+        pipes = all(k in kw and const(kw[k]) == subprocess.PIPE for k in ("stdin", "stdout", "stderr"))
+        text = any(k in kw and const(kw[k]) is True for k in ("universal_newlines", "text"))
+        if len(args) != 1 or not pipes or not text or set(kw) - {"stdin", "stdout", "stderr", "universal_newlines", "text"}:
+            raise Unsupported("subprocess.Popen: only Popen(argv, stdin=PIPE, stdout=PIPE, stderr=PIPE, text mode) is modelled", n)
+        argv = e.coerce(args[0], LS, n)
+        pr, st = e.fresh(ProcT, "proc", st)
+        st = st.assume(z3.Length(argv.z) >= 1, f_argv0(pr.z) == argv.z[0],
+                       f_pargs(pr.z) == z3.Extract(argv.z, 1, z3.Length(argv.z) - 1))
+        yield st, pr
+
+    eng.rules[subprocess.Popen] = r_popen
+
+    def m_communicate(e, bb, a, kw, st, sink, n):
+        inp = a[0] if a else kw.get("input")
+        oi = T.Opt(T.STR)
+        inp = e.coerce(inp, oi, n) if inp is not None else V(oi, oi.none())
+        pr = bb.recv.z
+        name = f_exename(f_argv0(pr))
+        out, st = e.fresh(T.STR, "stdout", st)
+        err, st = e.fresh(T.STR, "stderr", st)
+        cnt = st.ghost["call_count"]
+        st = st.set_ghost("call_exe", V(T.STR, name)).set_ghost("call_args", V(LS, f_pargs(pr)))
+        st = st.set_ghost("call_input", inp).set_ghost("call_out", out).set_ghost("call_err", err)
+        st = st.set_ghost("call_status", V(T.INT, f_rc(pr)))
+        st = st.set_ghost("call_count", V(cnt.ty, z3.Store(cnt.z, name, z3.Select(cnt.z, name) + 1)))
+        yield st, e.mk_tuple([out, err])
+
+    eng.method_rules[("Obj_CmdProc", "communicate")] = m_communicate
 
     def unpack_call(e, f, n, st, sink):
         """call(exe, *args, input=...) and call(*cmd)"""
